@@ -35,6 +35,9 @@ def runRerender (payload : String) : String × String × String :=
       let step (render : Stk → Text) (acc : Stk × List String) (o : String) : Stk × List String :=
         match words o with
         | ["render"] => (acc.1, ("S" ++ hx (render acc.1)) :: acc.2)
+        | ["enc", e] =>
+          let pair := (splitOn e "/").map unhx
+          ({ acc.1 with cfg := acc.1.cfg.SetEncap [.slice pair] }, "-" :: acc.2)
         | ["opt", tgt, name, v] =>
           let flag := if name == "paren" then Gen.flag_parens else if name == "fold" then Gen.flag_cfold
                       else if name == "nopad" then Gen.flag_nspad else Gen.flag_lonce
